@@ -594,6 +594,8 @@ def r4(ctx):
                 ok3 = all(g.dominates(cn, t, follow_exc=False) for c in closes for cn in nodes_with(f, c))
                 ctx.check("C02.R4", ok3, key(f, "should_close-after-close"), site(f, t), "should_close() is consulted before the response is finished", "consulted after resp.close()")
     late_error(ctx)
+    from .c05 import error_reply_callers
+    error_reply_callers(ctx, "C02.R4")
     # Parser.__next__ refuses to parse after a message that must close
     f = ctx.fn(repo.func("gunicorn.http.parser.Parser.__next__"))
     g = f.cfg
